@@ -370,18 +370,40 @@ def r2_union(ctx, prog):
     else:
         r.inst("resets", "only Lit -> Interpol(default) in get_interpol_keys_mut and on a literal type mismatch (nothing collected yet in both)")
     fn = ast.fn(PL, "get_interpol_keys_mut", impl_self="InterpolOrLit")
-    t = flatp(show(fn.body)) if fn else ""
-    if has(t, "InterpolOrLit::Interpolkeys=>keys") and has(t, "InterpolOrLit::Lit_=>{*self=InterpolOrLit::InterpolInterpolationKeys::default;self.get_interpol_keys_mut}"):
-        r.inst("get_interpol_keys_mut", "an existing set is returned as is; only a Lit is replaced by an empty set")
+    if fn is None:
+        r.missing("InterpolOrLit::get_interpol_keys_mut")
     else:
-        r.viol("R2:get_interpol_keys_mut", "an existing argument set may be replaced", file=PL)
-    for name, frag in (("push_var", "{letvar_infos=self.variables.entrykey.or_default;var_infos.formatters.insertformatter}"), ("push_comp", "{self.components.insertkey}")):
-        fn = ast.fn(PL, name, impl_self="InterpolationKeys")
-        t = flatp(show(fn.body)) if fn else ""
-        if same(t, frag):
-            r.inst("InterpolationKeys::%s body" % name, frag)
+        # evaluated: an existing argument set is handed back untouched; a literal key becomes an empty set
+        from rules import absint as _ai
+        from rules.absint import AEval as _AE, C as _C, CF as _CF, L as _L, A as _A
+        _ai.set_program(ast)
+        full = _CF("InterpolationKeys", components=_L(_A("c1")), variables=_L(_A("v1")))
+        okg = True
+        for start, want_self in ((_C("Interpol", full), _C("Interpol", full)), (_C("Lit", _C("Bool")), None)):
+            ev = _AE(funcs={})
+            try:
+                g = ev.run_fn(fn, [start])
+            except _ai.Unknown as u:
+                g = "UNKNOWN: %s" % u
+            after = (getattr(ev, "last_env", None) or {}).get("self")
+            if isinstance(g, str):
+                okg = None
+                break
+            if want_self is not None and (after != want_self or g != full):
+                okg = False
+            if want_self is None and not (after is not None and after[0] == "ctor" and after[1] == "Interpol"):
+                okg = False
+        if okg:
+            r.inst("get_interpol_keys_mut", "an existing set is returned as is; only a Lit is replaced by an empty set")
+        elif okg is False:
+            r.viol("R2:get_interpol_keys_mut", "an existing argument set may be replaced (or a literal key does not become an argument set)", file=PL, line=fn.line)
         else:
-            r.viol("R2:InterpolationKeys::" + name, "is `%s`" % t, file=PL)
+            t = flatp(show(fn.body))
+            if has(t, "InterpolOrLit::Interpolkeys=>keys") and has(t, "InterpolOrLit::Lit_=>{*self=InterpolOrLit::InterpolInterpolationKeys::default;self.get_interpol_keys_mut}"):
+                r.inst("get_interpol_keys_mut", "an existing set is returned as is; only a Lit is replaced by an empty set")
+            else:
+                r.viol("R2:get_interpol_keys_mut", "an existing argument set may be replaced", file=PL)
+    # (push_var / push_comp are decided by evaluation: push_eval above)
     return r
 
 
